@@ -364,7 +364,7 @@ impl Model for CacheModel {
 }
 
 /// evict(P) ≡ close(P): push a database over MAX_FILE_CACHE_SIZE for real and compare the delta
-fn eviction_conformance(rep: &Report) -> Value {
+fn eviction_conformance(rep: &'static Report) -> Value {
     let sc = Scratch::new("c07ev");
     let db = FixtureDatabase::new();
     let n = 2001usize;
@@ -445,7 +445,19 @@ pub fn run(rep: &'static Report) {
     let depth: u8 = if thorough { 4 } else { 3 };
     let (v1, model) = explore(rep, files(), depth, NQ, run_query);
     let (v2, _m2) = explore(rep, diamond_files(), depth, NQ_DIAMOND, run_query_diamond);
-    let ev = eviction_conformance(rep);
+    // on a helper thread with a deadline: an analysis that never returns once the cache limit is
+    // crossed must end this check with a verdict, not stall it (termination itself is C12's subject)
+    let (tx, rx) = std::sync::mpsc::channel();
+    std::thread::spawn(move || {
+        let _ = tx.send(eviction_conformance(rep));
+    });
+    let ev = match rx.recv_timeout(std::time::Duration::from_secs(180)) {
+        Ok(v) => v,
+        Err(_) => {
+            rep.violation("crossing the file-cache limit never completes", "the analysis that pushes the file cache over MAX_FILE_CACHE_SIZE did not return within 180 s", || json!({"eviction_conformance": "timeout"}));
+            json!({"timeout": true})
+        }
+    };
     let sum = |k: &str| v1[k].as_u64().unwrap_or(0) + v2[k].as_u64().unwrap_or(0);
     rep.set("states", sum("states"));
     rep.set("generated_states", sum("generated_states"));
